@@ -1033,16 +1033,23 @@ fn macro_case_event(asm: &Asm, j: &Value) -> Value {
     }
     let uargs: Vec<String> = j["use"]["args"].as_array().unwrap().iter().map(toks).collect();
     let use_text = format!("{}({})", j["use"]["name"].as_str().unwrap(), uargs.join(", "));
+    // `times` sibling uses at top level: each stands for its own copy of the expansion (the set of macros being expanded is
+    // empty again after every use -- seeded change C13-q left the name of an empty-bodied macro in it)
+    let times = j["times"].as_u64().unwrap_or(1);
     src.push_str("start:\n");
-    src.push_str(&use_text);
-    src.push_str("\nnop\n");
+    for _ in 0..times {
+        src.push_str(&use_text);
+        src.push_str("\nnop\n");
+    }
     let mut reference = String::from(header);
     reference.push_str("start:\n");
-    for ins in j["code"].as_array().unwrap() {
-        reference.push_str(&toks(ins));
-        reference.push('\n');
+    for _ in 0..times {
+        for ins in j["code"].as_array().unwrap() {
+            reference.push_str(&toks(ins));
+            reference.push('\n');
+        }
+        reference.push_str("nop\n");
     }
-    reference.push_str("nop\n");
     let a = asm.assemble(&src);
     let b = asm.assemble(&reference);
     let (macro_ok, macro_code, macro_err) = match &a { Ok(x) => (true, x.out.code.clone(), String::new()), Err(e) => (false, vec![], e.chars().take(200).collect()) };
@@ -1071,6 +1078,26 @@ pub fn gen_macros(_asm: &Asm, sh: &mut Shards, path: &str, workdir: &str) {
     let outp = format!("{}/macro_events.ndjson", workdir);
     let _ = std::fs::remove_file(&outp);
     let mut cases: Vec<String> = std::fs::read_to_string(path).expect("macro case file").lines().filter(|l| !l.trim().is_empty()).map(|l| l.to_string()).collect();
+    // every third accepted case of the model's libraries is used twice in a row
+    for (k, c) in cases.iter_mut().enumerate() {
+        if k % 3 == 1 {
+            if let Ok(mut j) = serde_json::from_str::<Value>(c) {
+                if j["err"].as_str().unwrap_or("") == "" {
+                    j["times"] = json!(2);
+                    *c = j.to_string();
+                }
+            }
+        }
+    }
+    // macros whose body is empty (or expands to nothing): used once, twice, three times in a row; twice from inside another
+    // macro; next to a macro that is not empty
+    for times in 1..=3u64 {
+        cases.push(json!({"lib":[{"name":"nothing","params":["_"],"body":[]}],"use":{"name":"nothing","args":[["_"]]},"err":"","code":[],"times":times}).to_string());
+        cases.push(json!({"lib":[{"name":"nothing","params":["a"],"body":[]},{"name":"pair","params":["r"],"body":[{"k":"use","name":"nothing","args":[["r"]]},{"k":"ins","toks":["inc","r"]},{"k":"use","name":"nothing","args":[["r"]]}]}],
+                          "use":{"name":"pair","args":[["bx"]]},"err":"","code":[["inc","bx"]],"times":times}).to_string());
+        cases.push(json!({"lib":[{"name":"nothing","params":["a"],"body":[]},{"name":"hollow","params":["r"],"body":[{"k":"use","name":"nothing","args":[["r"]]},{"k":"use","name":"nothing","args":[["r"]]}]}],
+                          "use":{"name":"hollow","args":[["cx"]]},"err":"","code":[],"times":times}).to_string());
+    }
     // macros with 1 .. 14 parameters (names that are prefixes of each other: p1 / p10 / p11), every parameter used, in
     // source order and in reverse; the reference is the body written out by hand
     for n in 1..=14usize {
